@@ -303,7 +303,8 @@ class Gen:
 
     def g_raise(self, depth):
         rng = self.rng
-        kind = rng.choice(['err', 'err', 'err', 'key', 'index', 'lookup', 'eq', 'eq', 'falsy'])
+        kind = rng.choice(['err', 'err', 'err', 'key', 'index', 'lookup', 'eq', 'eq', 'falsy',
+                           'stream', 'unavailable', 'interval'])
         if rng.random() < 0.12:
             # subclasses of the exceptions that scopes treat specially
             kind = rng.choice(['exit', 'kbd', 'assert'])
